@@ -259,9 +259,15 @@ type Tokenizer struct {
 
 	// Last offset converted by toSQLPosition (see there); reset with the input.
 	colCacheValid bool
-	colCacheLine  int
-	colCacheIdx   int
-	colCacheCol   int
+
+	// First non-blank byte of the line last asked about by hasCodeBeforeOnLine, so that
+	// many comments on one line do not each rescan the line's leading blanks.
+	codeCacheValid bool
+	codeCacheLine  int // byte offset of the line start
+	codeCacheFirst int // byte offset of the first non-blank on that line (len(input) if none)
+	colCacheLine   int
+	colCacheIdx    int
+	colCacheCol    int
 }
 
 // New creates a new Tokenizer with default configuration and keyword support.
@@ -1757,11 +1763,14 @@ func (t *Tokenizer) hasCodeBeforeOnLine(idx int) bool {
 	if li := sort.Search(len(t.lineStarts), func(i int) bool { return t.lineStarts[i] > idx }) - 1; li >= 0 {
 		lineStart = t.lineStarts[li]
 	}
-	// Check for non-whitespace between lineStart and idx
-	for i := lineStart; i < idx && i < len(t.input); i++ {
-		if t.input[i] != ' ' && t.input[i] != '\t' && t.input[i] != '\r' {
-			return true
+	// Check for non-whitespace between lineStart and idx: find the line's first non-blank
+	// once and remember it
+	if !t.codeCacheValid || t.codeCacheLine != lineStart {
+		first := lineStart
+		for first < len(t.input) && (t.input[first] == ' ' || t.input[first] == '\t' || t.input[first] == '\r') {
+			first++
 		}
+		t.codeCacheValid, t.codeCacheLine, t.codeCacheFirst = true, lineStart, first
 	}
-	return false
+	return t.codeCacheFirst < idx
 }
